@@ -1,6 +1,7 @@
 import Std.Data.HashMap
 import SpVerif.J
 import SpVerif.Ops.SpacePacket
+import SpVerif.Ops.Cds
 /-!
 # Line-protocol driver: one JSON object per input line (`{"op": …, …}`), one JSON result per output line.
 `{"ok": …}` / `{"err": "<category>"}` are model results; `{"bad": "<msg>"}` is a protocol error.
@@ -11,6 +12,7 @@ open SpVerif.J Lean
 -- one line per Ops module (file is merged with merge=union: add lines, do not edit existing ones)
 def allOps : List (String × Handler) := []
   ++ Ops.SpacePacket.ops
+  ++ Ops.Cds.ops
 
 def table : Std.HashMap String Handler := Std.HashMap.ofList allOps
 
